@@ -147,7 +147,7 @@ func inputStreams(t *testing.T, st *report.Stats, sc streamCfg, fn func(stream s
 			rt.Fatalf("violation")
 		}
 	})
-	all := append(gen.FullAlphabet(), gen.Term(gen.Word("NaN")), gen.Term(gen.Word("Inf")), gen.RawTerm("0x1p-2"), gen.RawTerm(`b\*`), gen.RawTerm(`a\\b`), gen.RawTerm("'"), gen.RawTerm(`"`), gen.RawTerm("/"), gen.RawTerm(","), gen.RawTerm("\x00"), gen.RawTerm("\xff"), gen.RawTerm("é"))
+	all := append(gen.FullAlphabet(), gen.Term(gen.Word("NaN")), gen.Term(gen.Word("Inf")), gen.RawTerm("0x1p-2"), gen.RawTerm(`b\*`), gen.RawTerm(`a\\b`), gen.RawTerm("'"), gen.RawTerm(`"`), gen.RawTerm("/"), gen.RawTerm(","), gen.RawTerm("\x00"), gen.RawTerm("\xff"), gen.RawTerm("é"), gen.RawTerm("-٣"), gen.RawTerm("-３"), gen.RawTerm("٣"), gen.RawTerm("010"), gen.RawTerm("0x1F"))
 	st.Rapid(t, "random-strings", sc.strings, func(rt *rapid.T) {
 		var s string
 		switch rapid.IntRange(0, 3).Draw(rt, "mode") {
